@@ -360,9 +360,65 @@ def check_c09(tier: str) -> int:
         if scen == "silent":
             script += to_stimuli(inst, noise_messages(inst, rng, stop))
         correspond(ck, gen, inst, script, "handshake")
+    deadline_race(ck, dist, tier)
     ck.extra["input_distribution"] = dict(sorted(dist.items()))
     ck.sample("AT5, 2 ACs (numbers 3, 9), 0 zones: names and zone-status requests echoed back to 0xB0; init() True")
     return ck.finish()
+
+
+def deadline_race(ck, dist, tier: str) -> None:
+    """The last answer arrives within a few event-loop iterations of the 5 s limit.  On the ordinary virtual clock time
+    stands still while callbacks run, so "the answer is processed while the timer fires" cannot happen; here the clock
+    creeps a few nanoseconds per loop iteration and the arrival instant is swept across the limit.  Whatever wins:
+    what init() returns must be what `initialised` says at that moment, and it must return."""
+    creep = 2.0 ** -26
+    for gen in (4, 5):
+        for j in range(0, 48 if tier == "quick" else 200):
+            inst = console.simple_installation(gen, 2, 4)
+            rig = console.ApiRig(inst)
+            try:
+                rig.console.silent_from = 5                      # the zone status answer is held back
+                t_start = rig.loop.time()
+                seen = []
+
+                async def wrapped():
+                    r = await rig.at.init()
+                    seen.append((r, bool(rig.at.initialised)))
+                    return r
+                task = rig.start(wrapped())
+                rig.advance(4 * TICK)
+                rig.loop.settle()
+                rig.loop.creep = creep
+                rig.loop._vnow = t_start + 5.0 - j * creep
+                rig.console.silent_from = None
+                conn = rig.net.current()
+                if conn is None:
+                    continue
+                rig.console.pid = (rig.console.pid + 1) % 256
+                rig.console.send(conn, rig.console.frame_of(answer_stimulus(inst, 5)[2], rig.console.pid))
+                for _ in range(400):
+                    if task.done():
+                        break
+                    rig.loop.call_soon(rig.loop.stop)
+                    rig.loop.run_forever()
+                rig.loop.creep = 0.0
+                if not task.done():
+                    rig.advance(6 * TICK)
+                ck.count()
+                dist["deadline_race"] += 1
+                replay = {"kind": "deadline-race", "gen": gen, "iterations_before_limit": j, "trigger": {"class": "deadline-race", "gen": gen}}
+                if not task.done() or task.exception() is not None or not seen:
+                    ck.violation("init() hung or raised when the last answer arrived at the 5 s limit", dict(replay, failure=str(task)))
+                elif seen[0][0] != seen[0][1]:
+                    dist["deadline_race_disagreement"] += 1
+                    ck.violation("init() returned a result that contradicts `initialised` at that moment",
+                                 dict(replay, failure=f"init() returned {seen[0][0]} while initialised was {seen[0][1]} (last answer "
+                                                      f"delivered {j} loop iterations before the 5 s limit, clock creeping {creep:.2e} s per iteration)"))
+                    return
+                else:
+                    dist[f"deadline_race_{seen[0][0]}"] += 1
+            finally:
+                rig.close()
 
 
 # ================================================================================ C10
@@ -953,7 +1009,18 @@ def check_c14(tier: str) -> int:
                     if cur is not None:
                         cur.transport.peer_reset()
                     rig.pump()
-                    advance_tracked(dur)
+                    dl = next_deadline() - rig.now_ticks()
+                    if 25 * TICK < dl < dur - 15 * TICK and rng.random() < 0.6:
+                        # ten commands are issued during the outage, 20 s before a poll deadline: at the deadline the send
+                        # queue is full of unexpired messages (nothing may be requested then, and nothing may break)
+                        advance_tracked(dl - 20 * TICK)
+                        ac0 = rig.at.air_conditioners[0]
+                        for _c in range(10):
+                            rig.start(ac0.set_power(T.POWER_CTL[1 + _c % 2]))
+                        dist["poll_deadline_with_full_queue"] += 1
+                        advance_tracked(dur - (dl - 20 * TICK))
+                    else:
+                        advance_tracked(dur)
                     while next_deadline() - rig.now_ticks() <= 3 * TICK + 8:
                         advance_tracked(5 * TICK)          # keep the reconnection clear of a deadline
                     rig.net.accept = True
